@@ -48,8 +48,9 @@ type deferred struct {
 }
 
 type loopState struct {
-	variant Term
-	hasVar  bool
+	variant  Term
+	hasVar   bool
+	arrivals int // unrolled loops: how often the head has been reached on this path
 }
 
 type Frame struct {
@@ -95,14 +96,17 @@ type State struct {
 	qfacts   []qfact
 	iters    map[*ssa.Range]Term // position of string range iterators
 	info     map[string]Val // Go-side knowledge (closure identity, dynamic type, ...) of values stored in cells
+	ixterms  []Term         // index terms the quantified facts have been instantiated at (pairs for two-variable facts)
 }
 
 // qfact: a universally quantified assumption kept for explicit instantiation at
 // slice index operations (triggers with arithmetic do not e-match reliably).
 type qfact struct {
-	ante Term
-	bv   string
-	impl Term
+	ante    Term
+	bv      string
+	bv2     string // second bound variable of a nested forall ("" for one-variable facts)
+	impl    Term
+	derived []Term // index terms of the body that are functions of bv (e.g. (div bv 2)): instances are added there too
 }
 
 type Unit struct {
@@ -115,6 +119,8 @@ type Unit struct {
 	abstr    map[string]bool
 	trusted  map[string]bool
 	inlined  map[string]bool
+	qSide     *[]Term // when set, closed-heap facts about reads that mention a bound variable are recorded here
+	ixCollect *[]Term // when set, slice index terms met while evaluating a specification are recorded here
 	freshN   int
 	paths    int
 	work     []*State
@@ -163,7 +169,16 @@ func (st *State) pathText() string {
 		lines = append(lines, n.line)
 	}
 	var b strings.Builder
+	// identical assertions (the same instance of a quantified fact added at several program
+	// points) are emitted once
+	seen := make(map[string]bool, len(lines))
 	for i := len(lines) - 1; i >= 0; i-- {
+		if strings.HasPrefix(lines[i], "(assert ") {
+			if seen[lines[i]] {
+				continue
+			}
+			seen[lines[i]] = true
+		}
 		b.WriteString(lines[i])
 		b.WriteByte('\n')
 	}
@@ -171,7 +186,7 @@ func (st *State) pathText() string {
 }
 
 func (st *State) clone() *State {
-	ns := &State{alloc: st.alloc, pc: st.pc, discover: st.discover, pathID: st.pathID, ghostSeq: st.ghostSeq, expectChans: st.expectChans, qfacts: st.qfacts, iters: st.iters}
+	ns := &State{alloc: st.alloc, pc: st.pc, discover: st.discover, pathID: st.pathID, ghostSeq: st.ghostSeq, expectChans: st.expectChans, qfacts: st.qfacts, iters: st.iters, ixterms: st.ixterms}
 	ns.heap = make(map[string]Term, len(st.heap))
 	for k, v := range st.heap {
 		ns.heap[k] = v
@@ -386,6 +401,10 @@ func (u *Unit) readLoc(st *State, l loc) Term {
 		t = fmt.Sprintf("(select (select %s %s) %s)", h, l.ref, l.idx)
 	} else {
 		t = fmt.Sprintf("(select %s %s)", h, l.ref)
+	}
+	if u.evalDepth > 0 && leafIsRef(l.leaf) && u.qSide != nil && strings.Contains(t, "qi_") && !strings.Contains(t, "q_") {
+		// inside the body of a harvested forall: the fact becomes part of the template
+		*u.qSide = append(*u.qSide, fmt.Sprintf("(and (<= 0 %s) (<= %s %s))", t, t, st.alloc))
 	}
 	if u.evalDepth > 0 && leafIsRef(l.leaf) && !strings.Contains(t, "q_") && !strings.Contains(t, "qi_") {
 		// the heap is closed under allocation: a reference read from it (in whatever state the
